@@ -18,7 +18,7 @@ def fq(a):
 def fit_kde(D, w, G, cell, s, Q, fp, fs, reach=None, prior=None):
     from skmatter.neighbors import SparseKDE
     mp_ = {"cell_length": np.asarray(cell, float) / s} if len(cell) else None
-    kde = SparseKDE(np.asarray(D, float) / s, np.asarray(w, float).copy(), metric_params=mp_, fpoints=fp, fspread=fs)
+    kde = core.mk(SparseKDE, descriptors=np.asarray(D, float) / s, weights=np.asarray(w, float).copy(), metric_params=mp_, fpoints=fp, fspread=fs)
     Gf = np.asarray(G, float) / s
     if prior is not None:
         # history: the same estimator object was fitted on another grid of the same size and queried before
